@@ -91,6 +91,10 @@ def dump_package(draw, tfp=None, max_res=3, **kw):
     names = draw(st.lists(st.sampled_from(['res1', 'data', 'a.b', 'sub/res', 'x-1', 'a.c', 'a.b.c']), min_size=n, max_size=n,
                           unique=True))
     pkg = [draw(dump_resource(nm, tfp=tfp, **kw)) for nm in names]
+    if len(pkg) >= 2 and draw(st.integers(0, 5)) == 0:
+        # two resources with different names and byte-identical contents (e.g. a duplicate)
+        pkg[1] = dict(copy.deepcopy(pkg[0]), name=pkg[1]['name'])
+        pkg[1].pop('path', None)
     for r in pkg:
         if '/' in r['name']:
             r['name'] = r['name'].replace('/', '_')
